@@ -150,7 +150,11 @@ def parseLayer (w : String) : Option Layer :=
       let e := if ef = "none" then ErrBeh.none else if ef = "reraise" then ErrBeh.reraise else if ef = "raise" then ErrBeh.raises
                else ErrBeh.ret (int! ef)
       some (.map (nat! li) f e)
-  | ["fmap", li, fn] => some (.flatMap (nat! li) (if fn = "raise" then .raises else .ident))
+  | ["fmap", li, fn] => some (.flatMap (nat! li) (if fn = "raise" then .raises else .ident) .none)
+  | ["fmap", li, fn, ef] =>
+      let e := if ef = "none" then ErrBeh.none else if ef = "reraise" then ErrBeh.reraise else if ef = "raise" then ErrBeh.raises
+               else ErrBeh.ret (int! ef)
+      some (.flatMap (nat! li) (if fn = "raise" then .raises else .ident) e)
   | ["retryx", ma, base] => some (.retry (.exc ⟨nat! ma, 0, 0, 0, (lst base).map nat!⟩))
   | ["retrys", steps] =>
       some (.retry (.script ((lst steps).map (fun x => if x = "r" then PolStep.retry else if x = "x" then .raises else .stop))))
